@@ -25,7 +25,7 @@ TOLS = [0.01, 0.1, 0.5]
 
 def gen_cases(tier, seed):
     rnd = random.Random(f"C16-{seed}")
-    n = 32 if tier == "quick" else 300
+    n = 32 if tier == "quick" else 200
     cases = []
     for i in range(n):
         d = gs.gen_spec(rnd, rnd.choice(["mm1", "mm1", "mv1", "chain2", "fanin2", "mvchain2"]), levels=rnd.choice([2, 2, 3]),
